@@ -6,6 +6,7 @@ import AfkakProofs.Producer.Once
 import AfkakProofs.Producer.StopTrace
 import AfkakProofs.Producer.Dispatch
 import AfkakProofs.Producer.Wait
+import AfkakProofs.Producer.ReentrantExt
 /-!
 # C19 — Batching thresholds, time limit and cancellation behave as documented
 Property theorems only.  Model: `Afkak/Producer.lean`; monitors: `Afkak/Monitor/C19.lean`.
@@ -162,6 +163,35 @@ example : ((traceOf exCfg [.send 0 0 none [some 3, none], .send 1 1 none [some 5
     (fun s => (s.post.queue, s.post.msgCount, s.post.byteCount))) = [([0], 2, 3), ([0, 1], 3, 8), ([1], 1, 5)] := by
   decide +kernel
 
+/-! ## Re-entrant callbacks (`Afkak/ProducerR.lean`)
+
+The callbacks a caller attaches to the Deferreds of `send_messages` may call back into the Producer
+(`send_messages`, cancel of another send, `stop()`); Twisted runs them synchronously, in the middle of the loop
+that fires the Deferreds.  `ProducerR` is the same machine with those loops threading the whole state; the
+driver and the correspondence check run IT (the scenarios attach such callbacks to a share of the sends). -/
+
+/-- Conservative extension: on event lists without hooks the re-entrant machine IS the flat one - same
+    states, same observations - so every theorem above is about the machine the implementation is compared
+    with.  (`depth`: how deep hooks may nest; irrelevant without hooks.) -/
+theorem C19_reentrant_conservative (cfg : Cfg) (depth : Nat) (c : St) (evs : List Ev) :
+    Afkak.ProducerR.runR cfg depth (Afkak.ProducerR.ofCore c) (evs.map .flat) =
+      (Afkak.ProducerR.ofCore (run cfg c evs).1, Afkak.ProducerR.lift (run cfg c evs).2) :=
+  Afkak.ProducerR.runR_flat cfg depth c evs
+
+/-- … step by step, whatever would execute the calls of hooks. -/
+theorem C19_reentrant_conservative_step (cfg : Cfg) (act : Afkak.ProducerR.Act) (c : St) (e : Ev) :
+    Afkak.ProducerR.stepCore cfg act (Afkak.ProducerR.ofCore c) e =
+      (Afkak.ProducerR.ofCore (step cfg c e).1, Afkak.ProducerR.lift (step cfg c e).2) :=
+  Afkak.ProducerR.stepCore_flat cfg act c e
+
+/-- Finding F27 (fixed 2a89c0b), in the re-entrant machine: whatever the callbacks of the sends that fail in
+    `_send_requests`' loop do (`act` arbitrary - e.g. call `stop()`), `_send_requests` lets a produce request
+    go out only if the Producer is not stopping at that moment. -/
+theorem C19_reentrant_no_request_once_stopping (act : Afkak.ProducerR.Act) (st : Afkak.ProducerR.StR) (ls : List Lookup)
+    (h : (Afkak.ProducerR.sendRequests act st ls).2.2 = false) :
+    (Afkak.ProducerR.sendRequests act st ls).1.core.stopping = false :=
+  Afkak.ProducerR.sendRequests_not_stopping act st ls h
+
 /-! Non-vacuity of the wait bound: a timed producer (`batch_every_t = 1`, thresholds out of reach); a send waits
 for the tick; the trace obeys the schedule (also with a late tick: the clock jumps to 5/2, one call, next due 3). -/
 def exCfgT : Cfg := Cfg.ofArgs 1 3 (1/4) true 100 10000 (some 1) false
@@ -190,6 +220,9 @@ C19_stop
 C19_dispatch_iff
 C19_wait_bound
 C19_wait_bound_clock
+C19_reentrant_conservative
+C19_reentrant_conservative_step
+C19_reentrant_no_request_once_stopping
 -/
 /- OPEN_STATEMENTS
 -/
